@@ -260,4 +260,134 @@ def WFApplyOne (a : Arch) (c : RelCfg) (rela : Bool) (secLen : Nat) (e : RelEntr
 def WFApply (a : Arch) (c : RelCfg) (rela : Bool) (syms : List Nat) (secLen : Nat) (es : List RelEntry) : Bool :=
   es.all (WFApplyOne a c rela secLen) && syms.all (fun s => decide (s < 2 ^ c.cls)) && decide (secLen < 2 ^ 63)
 
+/-! ### where the relocation tables of a loaded object are (gABI ch. 5 "Dynamic Section", "Program Header") -/
+
+namespace RelocDyn
+
+/-- `d_tag` numbers of the gABI (DT_RELR*: gABI 4.3 draft, as allocated) -/
+def DT_NULL : Int := 0
+def DT_PLTRELSZ : Int := 2
+def DT_RELA : Int := 7
+def DT_RELASZ : Int := 8
+def DT_RELAENT : Int := 9
+def DT_REL : Int := 17
+def DT_RELSZ : Int := 18
+def DT_RELENT : Int := 19
+def DT_PLTREL : Int := 20
+def DT_JMPREL : Int := 23
+def DT_RELRSZ : Int := 35
+def DT_RELR : Int := 36
+def DT_RELRENT : Int := 37
+
+/-- the relocation-related tags, with their names -/
+def relDynTags : List (String × Int) :=
+  [("DT_NULL", DT_NULL), ("DT_PLTRELSZ", DT_PLTRELSZ), ("DT_RELA", DT_RELA), ("DT_RELASZ", DT_RELASZ),
+   ("DT_RELAENT", DT_RELAENT), ("DT_REL", DT_REL), ("DT_RELSZ", DT_RELSZ), ("DT_RELENT", DT_RELENT),
+   ("DT_PLTREL", DT_PLTREL), ("DT_JMPREL", DT_JMPREL), ("DT_RELRSZ", DT_RELRSZ), ("DT_RELR", DT_RELR),
+   ("DT_RELRENT", DT_RELRENT)]
+
+/-- one table: virtual address and size in bytes -/
+structure DynTab where
+  addr : Nat
+  size : Nat
+  deriving Repr, DecidableEq
+
+/-- the relocation tables a dynamic array describes: DT_REL/DT_RELSZ, DT_RELA/DT_RELASZ, DT_RELR/DT_RELRSZ and
+    DT_JMPREL/DT_PLTRELSZ with the flavour DT_PLTREL names (`true` = DT_RELA) -/
+structure DynRelocs where
+  rel : Option DynTab := none
+  rela : Option DynTab := none
+  relr : Option DynTab := none
+  jmprel : Option (DynTab × Bool) := none
+  deriving Repr, DecidableEq
+
+/-- an `ElfN_Dyn` entry: (d_tag, d_un) -/
+abbrev DynEntry := Int × Nat
+
+/-- the entries that describe `d` (the entry sizes are the ones of the file's class/machine) -/
+def dynRelEntries (c : RelCfg) (d : DynRelocs) : List DynEntry :=
+  (match d.rel with
+   | some t => [(DT_REL, t.addr), (DT_RELSZ, t.size), (DT_RELENT, relEntSize c false)]
+   | none => []) ++
+  (match d.rela with
+   | some t => [(DT_RELA, t.addr), (DT_RELASZ, t.size), (DT_RELAENT, relEntSize c true)]
+   | none => []) ++
+  (match d.relr with
+   | some t => [(DT_RELR, t.addr), (DT_RELRSZ, t.size), (DT_RELRENT, c.w)]
+   | none => []) ++
+  (match d.jmprel with
+   | some (t, rela) => [(DT_JMPREL, t.addr), (DT_PLTRELSZ, t.size), (DT_PLTREL, if rela then DT_RELA.toNat else DT_REL.toNat)]
+   | none => [])
+
+/-- `tags` (the array up to, not including, the terminating DT_NULL) describes exactly `d`: the entries carrying a
+    relocation-related tag are those of `dynRelEntries` — in any order, amid any other entries -/
+def DynDescribes (c : RelCfg) (d : DynRelocs) (tags : List DynEntry) : Bool :=
+  relDynTags.all fun p => tags.filter (fun e => e.1 == p.2) == (dynRelEntries c d).filter (fun e => e.1 == p.2)
+
+/-- field ranges of an entry: Elf32_Sword/Elf64_Sxword tag, ElfN_Addr value -/
+def WFDyn (cls : Nat) (e : DynEntry) : Bool :=
+  decide (-((2 ^ (cls - 1) : Nat) : Int) ≤ e.1) && decide (e.1 < ((2 ^ (cls - 1) : Nat) : Int)) && decide (e.2 < 2 ^ cls)
+
+def encDyn (le : Bool) (cls : Nat) (e : DynEntry) : Bytes :=
+  encNat le (cls / 8) (ofSigned cls e.1) ++ encNat le (cls / 8) e.2
+
+def encDynArray (le : Bool) (cls : Nat) (es : List DynEntry) : Bytes := es.flatMap (encDyn le cls)
+
+/-- a PT_LOAD segment as far as address translation goes -/
+structure LoadSeg where
+  vaddr : Nat
+  filesz : Nat
+  offset : Nat
+  deriving Repr, DecidableEq
+
+/-- is the byte at virtual address `a` in the segment's file image? -/
+def LoadSeg.holds (s : LoadSeg) (a : Nat) : Bool := decide (s.vaddr ≤ a) && decide (a < s.vaddr + s.filesz)
+
+/-- file offset of a virtual address: `a − p_vaddr + p_offset` in the PT_LOAD segment holding it (segments in
+    program-header order; the file images of PT_LOAD segments do not overlap in a conforming file) -/
+def fileOffset (loads : List LoadSeg) (a : Nat) : Option Nat :=
+  (loads.find? (·.holds a)).map fun s => a - s.vaddr + s.offset
+
+/-- what the API must present for the dynamic relocation tables -/
+inductive DynTableObs
+  | rel (offset : Option Nat) (size entsize : Nat) (rela : Bool)
+  | relr (offset : Option Nat) (size entsize : Nat)
+  deriving Repr, DecidableEq
+
+def dynTablesStd (c : RelCfg) (loads : List LoadSeg) (d : DynRelocs) : List (String × DynTableObs) :=
+  (match d.rel with
+   | some t => [("REL", .rel (fileOffset loads t.addr) t.size (relEntSize c false) false)]
+   | none => []) ++
+  (match d.rela with
+   | some t => [("RELA", .rel (fileOffset loads t.addr) t.size (relEntSize c true) true)]
+   | none => []) ++
+  (match d.relr with
+   | some t => [("RELR", .relr (fileOffset loads t.addr) t.size c.w)]
+   | none => []) ++
+  (match d.jmprel with
+   | some (t, rela) => [("JMPREL", .rel (fileOffset loads t.addr) t.size (relEntSize c rela) rela)]
+   | none => [])
+
+/-- a table at virtual address 0 is outside the domain (the library treats a null pointer as "absent") -/
+def WFDynRelocs (d : DynRelocs) : Bool :=
+  (d.rel.all (·.addr ≠ 0)) && (d.rela.all (·.addr ≠ 0)) && (d.relr.all (·.addr ≠ 0)) && (d.jmprel.all (·.1.addr ≠ 0))
+
+/-! ### which relocation section belongs to a section (gABI ch. 4 "Special Sections": `.relname` / `.relaname`) -/
+
+/-- a section header as far as relocation lookup goes; `rela = none`: not SHT_REL / SHT_RELA -/
+structure RelSecDesc where
+  name : String
+  rela : Option Bool
+  offset : Nat
+  size : Nat
+  link : Nat
+  deriving Repr, DecidableEq
+
+/-- the relocation section for the section named `target`: the first SHT_REL/SHT_RELA section named
+    `.rel<target>` or `.rela<target>` -/
+def relocSectionFor (target : String) (secs : List RelSecDesc) : Option RelSecDesc :=
+  secs.find? fun s => s.rela.isSome && (s.name == ".rel" ++ target || s.name == ".rela" ++ target)
+
+end RelocDyn
+
 end PyElf.Spec
